@@ -161,6 +161,34 @@ def main_c09_c10(prop, tier):
             def one(d):
                 return run_record(cli, os.path.join(root, d['id']), [d['id']], d['id'], list(d['types']), d['id'])
             records = pl.pmap(one, decls)
+            # several declarations in one file: one function per declaration, or the whole file refused and untouched
+            valid = [d for d in decls if ds.accepts(d) and d['id'][0] in 'gx']
+            bad = [d for d in decls if not ds.accepts(d)]
+            groups = []
+            for g in range(6 if tier == 'quick' else 40):
+                k = rng.choice([2, 3])
+                members = [rng.choice(valid) for _ in range(k)]
+                if g % 2 == 1 and bad:
+                    members[rng.randrange(k)] = rng.choice(bad)
+                # distinct base declarations only
+                if len({m['id'] for m in members}) < k:
+                    continue
+                groups.append(ds.make_group('m%03d' % g, members))
+            gdecls = [d for grp in groups for d in grp]
+            if gdecls:
+                groot = pl.make_scratch(w, gdecls, 'multi')
+                for grp in groups:
+                    if rng.random() < 0.5:
+                        p = os.path.join(groot, grp[0]['group'], 'k_band.go')
+                        open(p, 'w').write(STALE)
+                        os.utime(p, (1600000000, 1600000000))
+
+                def onegrp(grp):
+                    types_ = [t for d in grp for t in d['types']]
+                    return run_record(cli, os.path.join(groot, grp[0]['group']), [d['id'] for d in grp], grp[0]['group'], types_, grp[0]['group'])
+                records += pl.pmap(onegrp, groups)
+                decls = decls + gdecls
+                byid.update({d['id']: d for d in gdecls})
             vj, st = tlc_gen(w, decls, records)
             # the oracle itself: Decl.tla against the Python reference on this very batch
             chk = decl_crosscheck(w, decls)
